@@ -340,6 +340,14 @@ func (s *socket) MaybeUpgrade(transport transports.Transport) {
 	// reader, the timers, whoever closes the session), and an upgrade packet processed in the instant
 	// the upgrade timeout fires must not switch the session to a transport the timeout is closing
 	var finished atomic.Bool
+	// a probe answered while the attempt ends must not arm a check interval that nobody will clear:
+	// ending the attempt and arming the interval exclude each other
+	var checkMu sync.Mutex
+	finish := func() bool {
+		checkMu.Lock()
+		defer checkMu.Unlock()
+		return finished.CompareAndSwap(false, true)
+	}
 
 	onPacket = func(datas ...any) {
 		if finished.Load() {
@@ -354,10 +362,14 @@ func (s *socket) MaybeUpgrade(transport transports.Transport) {
 			probed.Store(true)
 			s.Emit("upgrading", transport)
 
-			utils.ClearInterval(checkIntervalTimer.Load())
-			checkIntervalTimer.Store(utils.SetInterval(check, 100*time.Millisecond))
+			checkMu.Lock()
+			if !finished.Load() {
+				utils.ClearInterval(checkIntervalTimer.Load())
+				checkIntervalTimer.Store(utils.SetInterval(check, 100*time.Millisecond))
+			}
+			checkMu.Unlock()
 
-		} else if !finished.CompareAndSwap(false, true) {
+		} else if !finish() {
 			return
 		} else if packet.UPGRADE == data.Type && probed.Load() && s.ReadyState() != "closed" {
 			socket_log.Debug("got upgrade packet - upgrading")
@@ -412,7 +424,7 @@ func (s *socket) MaybeUpgrade(transport transports.Transport) {
 	}
 
 	onError = func(err ...any) {
-		if !finished.CompareAndSwap(false, true) {
+		if !finish() {
 			return
 		}
 		socket_log.Debug("client did not complete upgrade - %v", err[0])
@@ -432,7 +444,7 @@ func (s *socket) MaybeUpgrade(transport transports.Transport) {
 
 	// set transport upgrade timer
 	upgradeTimeoutTimer.Store(utils.SetTimeout(func() {
-		if !finished.CompareAndSwap(false, true) {
+		if !finish() {
 			return
 		}
 		socket_log.Debug("client did not complete upgrade - closing transport")
